@@ -10,8 +10,10 @@ ALL = ["C%02d" % i for i in range(1, 21)]
 # id -> (design_ref, level text, level note, technique)
 CLAIMS = {}
 
+EXTRA_CORR = {}
+
 def claim(pid, text, note, technique, category="proof"):
-    CLAIMS[pid] = dict(text=text, note=note, technique=technique, category=category)
+    CLAIMS[pid] = dict(text=text + EXTRA_CORR.get(pid, ""), note=note, technique=technique, category=category)
 
 exec(open(os.path.join(ROOT, "tools", "claims.py")).read())
 
